@@ -200,6 +200,14 @@ Theorem C18_grain_volume_conserved size psd :
 Proof. exact (conj (normalize_third_moment size psd) (conj (normalize_nonneg size psd) (normalize_Rm3 size psd))). Qed.
 Print Assumptions C18_grain_volume_conserved.
 
+(* a distribution loaded with LoadDistribution / LoadDistributionFunction has total volume 1, and so has the state reset()
+   restores, whatever happened to the distribution in between (the backup is taken after Normalize) *)
+Theorem C18_load_reset_volume size raw psd' : momentFromN Rops size raw 3 <> 0 ->
+  momentFromN Rops size (g_psd (gload Rops size raw)) 3 = 1 /\
+  momentFromN Rops size (g_psd (greset Rops {| g_psd := psd'; g_backup := g_backup (gload Rops size raw) |})) 3 = 1.
+Proof. exact (load_reset_volume size raw psd'). Qed.
+Print Assumptions C18_load_reset_volume.
+
 (* PARTIAL: the mean size cubed is M3/M0.  The number M0 never increases (theorem above); IF the transport
    step does not lose volume (M3 <= M3', not proved for the upwind discretisation: sampled by the check) the
    mean size does not decrease *)
